@@ -161,11 +161,16 @@ func (_this *interfaceBuilder) BuildFromMedia(ctx *Context, mediaType string, da
 }
 
 func (_this *interfaceBuilder) BuildFromTime(ctx *Context, value compact_time.Time, dst reflect.Value) reflect.Value {
-	if gTime, err := value.AsGoTime(); err == nil {
-		dst.Set(reflect.ValueOf(gTime))
-	} else {
-		dst.Set(reflect.ValueOf(value))
+	// Only a timestamp is a point in time. A date or a time of day would gain
+	// fields it doesn't have (and come back as a timestamp) if it were
+	// converted to a time.Time.
+	if value.Type == compact_time.TimeTypeTimestamp {
+		if gTime, err := value.AsGoTime(); err == nil {
+			dst.Set(reflect.ValueOf(gTime))
+			return dst
+		}
 	}
+	dst.Set(reflect.ValueOf(value))
 	return dst
 }
 
